@@ -715,6 +715,21 @@ def check_reload(viol, out, fname, model, cfg):
                                                                     None):
             viol('reload', 'param:model.' + nm, '%r written, %r after reload'
                  % (getattr(model, attr), getattr(m2, attr, None)))
+    # The loader adds contributions in the file's (alphabetical) group order,
+    # which may differ from the writer's add order; the licensed exp(-10)
+    # saturation cut-off makes the spectrum depend on that order at the 1e-10
+    # level.  Compare with a fresh model built from the same configuration
+    # with the contributions added in the reloaded model's order.
+    cls2cfg = {'AbsorptionContribution': 'Absorption',
+               'CIAContribution': 'CIA', 'RayleighContribution': 'Rayleigh',
+               'SimpleCloudsContribution': 'SimpleClouds',
+               'FlatMieContribution': 'FlatMie',
+               'LeeMieContribution': 'LeeMie'}
+    order2 = [cls2cfg[type(c).__name__] for c in m2.contribution_list]
+    if order2 != [cls2cfg[type(c).__name__] for c in model.contribution_list]:
+        out.bump('probes', 'reload_changed_contribution_order')
+        r1 = R.build_model(cfg['model'], install=False,
+                           contrib_order=order2).model()
     if not np.array_equal(r1[0], r2[0]) or \
             not np.allclose(r1[1], r2[1], rtol=1e-12, atol=0):
         viol('reload', 'spectrum', 'reloaded model gives a different spectrum '
